@@ -59,6 +59,9 @@ struct JSON {
         ~JSONParser()                             = delete;
 
         static ValueT Parse(Stream_T &stream, const Char_T *content, SizeT length) {
+            // The scratch stream can hold leftovers of an earlier, failed parse.
+            stream.Clear();
+
             if (length != 0) {
                 SizeT offset = 0;
                 StringUtils::TrimLeft(content, offset, length);
